@@ -1,59 +1,182 @@
 import re
-p = '/verif/harness/src/props/c15_rows.rs'
+# ---- C14: all profile-group shapes (1..3 terms, every negation pattern), up to 2 groups
+p = '/verif/harness/src/props/c14.rs'
 s = open(p).read()
-
-# 1. empty string lists are not valid values of these Debian list fields (an empty field value) -> not in the menus
-n0 = s.count(', Vec::<String>::new()]')
-s = s.replace(', Vec::<String>::new()]', ']')
-print('removed empty string-list values:', n0)
-
-def drop_block(start_marker, what):
-    """remove one read_row!(...) invocation starting at the line containing start_marker"""
-    global s
-    i = s.index(start_marker)
-    a = s.rfind('\n', 0, i) + 1
-    # the invocation ends at the first line that is exactly '        ]),'
-    b = s.index('\n        ]),\n', i) + len('\n        ]),\n')
-    # also drop a comment line directly in front
-    prev = s.rfind('\n', 0, a - 1) + 1
-    if s[prev:a].strip().startswith('//'):
-        a = prev
-    s = s[:a] + s[b:]
-    print('dropped', what)
-
-def drop_case(marker, what):
-    """remove one (text, want) tuple line (possibly two physical lines) containing marker"""
-    global s
-    i = s.index(marker)
-    a = s.rfind('\n', 0, i) + 1
-    # tuple ends with '),\n' at the end of a line
-    b = s.index('),\n', i) + 3
-    s = s[:a] + s[b:]
-    print('dropped case', what)
-
-drop_block('[field names in another case]', 'case-insensitive field names (the library is case-sensitive throughout; the statement only says paragraphs are found by their Source/Package fields)')
-drop_block('[as written in archive Release files]', "reading of 'Packages' as a yes/no flag (no documented boolean reading)")
-drop_case('Format-Specification: http://svn.debian.org', 'Format-Specification fallback (text not starting with Format is refused by design, C17)')
-drop_case('Files-Excluded: vendor/* *.min.js\\n docs/rfc*.txt', 'Files-Excluded whitespace splitting (uscan convention, not DEP-5)')
-drop_case('License: Expat\\n header text', 'header paragraph carrying a License field')
-# FilesParagraph.copyright on an absent field
-i = s.index('read_row!("copyright::FilesParagraph", "copyright"')
-j = s.index('\n        ]),\n', i)
-seg = s[i:j]
-lines = seg.split('\n')
-lines = [l for l in lines if not (l.strip().endswith('"[]"),') and 'Copyright' not in l.split('License')[0].replace('copyright-format', ''))]
-s = s[:i] + '\n'.join(lines) + s[j:]
-# substvars are reported by substvars(), not among the entries
-s = s.replace('"Some([\\"${shlibs:Depends}\\", \\"libc6 (>= 2.36)\\", \\"a | b\\"])"', '"Some([\\"libc6 (>= 2.36)\\", \\"a | b\\"])"')
-open(p, 'w').write(s)
-
-p = '/verif/harness/src/props/c15.rs'
-s = open(p).read()
-old = '''    let o2 = match (b.run)(&o1.after, 0) {'''
-new = '''    if o1.got != o1.want {
-        return out; // the first setter alone already fails: reported by its own Set case
+s = s.replace('const PROFS: [&[&[&str]]; 4] = [&[], &[&["x"]], &[&["!x", "y"]], &[&["x"], &["!y", "z"]]];\n',
+'''/// every group shape: 1..3 terms (names x, y, z in that order), every negation pattern -> 14 shapes;
+/// profile lists: none, one group (14), two groups (first from 14, second from 4 representative shapes)
+fn group_shapes() -> Vec<Vec<String>> {
+    let names = ["x", "y", "z"];
+    let mut out = vec![];
+    for n in 1..=3usize {
+        for mask in 0..(1u32 << n) {
+            out.push((0..n).map(|i| if mask & (1 << i) != 0 { format!("!{}", names[i]) } else { names[i].to_string() }).collect());
+        }
     }
-    let o2 = match (b.run)(&o1.after, 0) {'''
-assert old in s
-s = s.replace(old, new)
+    out
+}
+fn profs() -> Vec<Vec<Vec<String>>> {
+    let g = group_shapes();
+    let mut out: Vec<Vec<Vec<String>>> = vec![vec![]];
+    for a in &g {
+        out.push(vec![a.clone()]);
+    }
+    for a in &g {
+        for b in [&g[0], &g[1], &g[3], &g[12]] {
+            out.push(vec![a.clone(), b.clone()]);
+        }
+    }
+    out
+}
+''')
+s = s.replace('[NAMES14.len(), QUALS.len(), VERSIONS.len(), ARCHS14.len(), PROFS.len()]', '[NAMES14.len(), QUALS.len(), VERSIONS.len(), ARCHS14.len(), profs().len()]')
+s = s.replace('''    r.profiles = PROFS[v[4]]
+        .iter()
+        .map(|g| g.iter().map(|t| BuildProfile::from_str(t).unwrap()).collect())
+        .collect();''', '''    r.profiles = profs()[v[4]]
+        .iter()
+        .map(|g| g.iter().map(|t| BuildProfile::from_str(t).unwrap()).collect())
+        .collect();''')
+# subset indices for profiles: pick later-negated and 3-term shapes
+s = s.replace('''        [0, 0, 0, 0, 1],
+        [0, 0, 0, 0, 2],
+        [0, 0, 0, 0, 3],
+        [1, 1, 1, 3, 3],
+        [1, 1, 2, 5, 2],''', '''        [0, 0, 0, 0, 1],
+        [0, 0, 0, 0, 5],
+        [0, 0, 0, 0, 14],
+        [1, 1, 1, 3, 20],
+        [1, 1, 2, 5, 9],''')
+s = s.replace('x 4 profile-group shapes (720 values)', 'x 71 profile lists (no group; every one-group shape of 1-3 terms with every negation pattern; two groups) (5112 values)')
 open(p, 'w').write(s)
+
+# ---- C08: more canonical values
+p = '/verif/harness/src/props/c08.rs'
+s = open(p).read()
+s = s.replace('pub const VALUES8: [&str; 13] = ["", "v", "v w  ", "é", "a:b", "a #b", ":x", "#x", "v\\nw", "\\nv", "\\nv\\nw", "v\\n.\\nw", "v\\nw:x"];',
+ 'pub const VALUES8: [&str; 16] = ["", "v", "v w  ", "é", "a:b", "a #b", ":x", "#x", "v\\nw", "\\nv", "\\nv\\nw", "v\\n.\\nw", "v\\nw:x", "v  \\nw", "v\\nw\\t", "é\\u{3000}\\nw  \\nx"];')
+s = s.replace('3 names x 13 canonical values', '3 names x 16 canonical values')
+open(p, 'w').write(s)
+
+# ---- C12: alternatives on the SAME package
+p = '/verif/harness/src/props/c12.rs'
+s = open(p).read()
+s = s.replace('''    /// AND/OR nesting: per entry, per alternative: 0 satisfied, 1 version mismatch, 2 absent
+    Nest { entries: Vec<Vec<u8>> },''', '''    /// AND/OR nesting: per entry, per alternative: 0 satisfied, 1 version mismatch, 2 absent
+    Nest { entries: Vec<Vec<u8>> },
+    /// one entry whose alternatives all name the SAME package: (operator index, required version index) each;
+    /// installed version index (POOL.len() = absent); then a second entry on another, installed package
+    SamePkg { alts: Vec<(usize, usize)>, inst: usize },''')
+s = s.replace('''fn check_nest(entries: &[Vec<u8>]) -> Vec<Viol> {''', '''const SAME_REQ: [usize; 3] = [0, 2, 4];
+fn check_same(alts: &[(usize, usize)], inst: usize) -> Vec<Viol> {
+    let mut out = vec![];
+    let installed: Option<Version> = POOL.get(inst).map(|v| v.parse().unwrap());
+    let inst_idx = if inst < POOL.len() { Some(inst) } else { None };
+    let mut map: HashMap<String, Version> = HashMap::new();
+    if let Some(v) = &installed {
+        map.insert("pkg".into(), v.clone());
+    }
+    map.insert("other".into(), "1".parse().unwrap());
+    let text = format!(
+        "{}, other",
+        alts.iter().map(|(op, req)| if *op == 0 { "pkg".to_string() } else { format!("pkg ({} {})", OPS12[*op], POOL[*req]) }).collect::<Vec<_>>().join(" | ")
+    );
+    let want = alts.iter().any(|(op, req)| reference_cell(*op, *req, inst_idx));
+    let closure = |name: &str| -> Option<Version> { map.get(name).cloned() };
+    let got_ll = ll::Relations::from_str(&text).unwrap().satisfied_by(closure);
+    let got_ly = ly::Relations::from_str(&text).unwrap().satisfied_by(closure);
+    if got_ll != want {
+        out.push(viol("lossless-same-package-alternatives", format!("field {:?} with pkg at {:?}: lossless says {}, expected {}", text, POOL.get(inst), got_ll, want)));
+    }
+    if got_ly != want {
+        out.push(viol("lossy-same-package-alternatives", format!("field {:?} with pkg at {:?}: lossy says {}, expected {}", text, POOL.get(inst), got_ly, want)));
+    }
+    out
+}
+
+fn check_nest(entries: &[Vec<u8>]) -> Vec<Viol> {''')
+s = s.replace('''    fn n_shards(&self, t: Tier) -> usize {
+        1 + 1 + t.pick(3, 4)
+    }''', '''    fn n_shards(&self, t: Tier) -> usize {
+        1 + 1 + t.pick(3, 4) + 1
+    }''')
+s = s.replace('''            k => {
+                let entries = k - 1;''', '''            k if k == 2 + t.pick(3, 4) => {
+                // alternatives on the same package: 1..3 alternatives x (6 operators x 3 required versions) x installed
+                let per = 6 * SAME_REQ.len();
+                for n_alt in 1..=3usize {
+                    let mut m = vec![per; n_alt];
+                    m.push(SAME_REQ.len() + 2);
+                    product(&m, &mut |v| {
+                        let alts: Vec<(usize, usize)> = v[..n_alt].iter().map(|x| (x / SAME_REQ.len(), SAME_REQ[x % SAME_REQ.len()])).collect();
+                        if alts.iter().any(|(op, req)| *op == 0 && *req != SAME_REQ[0]) {
+                            return; // required version irrelevant for an unversioned alternative
+                        }
+                        let iv = v[n_alt];
+                        let inst = match iv {
+                            0 => 1,  // between the required versions
+                            1 => 2,
+                            2 => 3,
+                            3 => 5,
+                            _ => POOL.len(),
+                        };
+                        f(&C12Case::SamePkg { alts, inst });
+                    });
+                }
+            }
+            k => {
+                let entries = k - 1;''')
+s = s.replace('''            C12Case::Nest { entries } => check_nest(entries),
+        });''', '''            C12Case::Nest { entries } => check_nest(entries),
+            C12Case::SamePkg { alts, inst } => check_same(alts, *inst),
+        });''')
+s = s.replace('''                        C12Case::Nest { .. } => "nest-ok",''', '''                        C12Case::Nest { .. } => "nest-ok",
+                        C12Case::SamePkg { .. } => "same-package-ok",''')
+s = s.replace('''            C12Case::Cell { .. } => vec![],''', '''            C12Case::Cell { .. } => vec![],
+            C12Case::SamePkg { alts, inst } => {
+                let mut out = vec![];
+                for i in 0..alts.len() {
+                    if alts.len() > 1 {
+                        let mut a = alts.clone();
+                        a.remove(i);
+                        out.push(C12Case::SamePkg { alts: a, inst: *inst });
+                    }
+                }
+                out
+            }''')
+s = s.replace('plus the empty field; all cases distinct', 'plus the empty field; (3) every entry of 1-3 alternatives that all name the SAME package (6 operators x 3 required versions each) x 5 installed states, followed by a second satisfied entry; all cases distinct')
+open(p, 'w').write(s)
+
+# ---- C02: grammar-position token tier for codecs
+p = '/verif/harness/src/props/c02.rs'
+s = open(p).read()
+s = s.replace('''    fn n_shards(&self, _t: Tier) -> usize {
+        entry_points().len() * 4
+    }''', '''    fn n_shards(&self, _t: Tier) -> usize {
+        entry_points().len() * 5
+    }''')
+s = s.replace('let ep = &eps[shard / 4];', 'let ep = &eps[shard / 5];')
+s = s.replace('match shard % 4 {', 'match shard % 5 {')
+s = s.replace('''            2 => {
+                for s in pumped(ep.group, t) {''', '''            4 => {
+                // grammar-position tier: few multi-character tokens, long enough sequences to fill every position
+                // of the longest value grammar (VCS location: url, subpath, branch in either order; records of 3-5 items)
+                if ep.group == Group::Codec {
+                    let toks = ["u", "https://host/r.git", " [", "]", " -b ", "m", "src/packaging/debian", " "];
+                    let sp = SeqSpace::new(&toks, t.pick(6, 7), 0);
+                    sp.explore(0, &mut |s, idx| {
+                        if idx.len() < 4 {
+                            return;
+                        }
+                        case.s.clear();
+                        case.s.push_str(s);
+                        case.fresh = false;
+                        f(&case);
+                    });
+                }
+            }
+            2 => {
+                for s in pumped(ep.group, t) {''')
+s = s.replace('(4) for typed documents', '(4) for single-value codecs every sequence of 4-6 (thorough 7) tokens of the longest value grammar (url, " [", subpath, "]", " -b ", branch, blank); (5) for typed documents')
+open(p, 'w').write(s)
+print("ok")
